@@ -75,7 +75,15 @@ WidthProg(c) ==
      ELSE [p |-> HeaderEmpty \o f1 \o <<Empty>> \o theLines, line |-> 0, target |-> theLines[1]]
 
 (* ---- lines ------------------------------------------------------------------------------------------------ *)
-LineShapes == {"flat", "decls", "braced", "braceless", "mixed"}
+(* shapes of the body; the last seven put, somewhere in a body at the limit, a line that the engine splits into two      *)
+(* statements (trailing comment, brace on the line of the control statement, "} else {", two instructions, a control     *)
+(* statement with its instruction) or a statement / comment that spans several physical lines: the count is a count of   *)
+(* LINES, whatever the statements are                                                                                     *)
+LineShapes == {"flat", "decls", "braced", "braceless", "mixed", "eolcomment", "samebrace", "elsebrace", "twoinstr", "ctrlstmt",
+               "split", "comment3"}
+PhysLines(l) == IF l.st = "IsComment3" THEN 3 ELSE 1 + Cardinality({j \in DOMAIN l.items : l.items[j] = NLc})
+RECURSIVE PhysSum(_, _)
+PhysSum(ls, i) == IF i > Len(ls) THEN 0 ELSE PhysLines(ls[i]) + PhysSum(ls, i + 1)
 LinesCases == {[lim |-> "lines", shape |-> s, n |-> n, fidx |-> f] : s \in LineShapes, n \in 22..31, f \in 1..3}
 BodyOf(shape, n) ==
   CASE shape = "flat" -> Rep(SimpleLine(1), n)
@@ -90,6 +98,18 @@ BodyOf(shape, n) ==
                             Line("ctrl", "IsControlStatement", Tabs(1) \o <<L("else", 4)>>), Brace(TRUE, 1),
                             Line("ctrl", "IsControlStatement", Tabs(2) \o <<L("while (", 7), V1, L(")", 1)>>), SimpleLine(3), Brace(FALSE, 1)>>
                           \o Rep(SimpleLine(1), n - 7)
+    [] shape = "eolcomment" -> <<Line("stmt", "IsAssignation", Tabs(1) \o <<V1, L(" = ", 3), N1, L(";", 1), L(" // ", 4), Slot("txt", 6, 0)>>)>>
+                               \o Rep(SimpleLine(1), n - 1)
+    [] shape = "samebrace" -> <<Line("ctrl", "IsControlStatement", Tabs(1) \o <<L("while (", 7), V1, L(") {", 3)>>)>>
+                              \o Rep(SimpleLine(2), n - 3) \o <<Brace(FALSE, 1), SimpleLine(1)>>
+    [] shape = "elsebrace" -> <<Line("ctrl", "IsControlStatement", Tabs(1) \o <<L("if (", 4), V1, L(") {", 3)>>), SimpleLine(2),
+                                Line("ctrl", "IsControlStatement", Tabs(1) \o <<L("} else {", 8)>>), SimpleLine(2), Brace(FALSE, 1)>>
+                              \o Rep(SimpleLine(1), n - 5)
+    [] shape = "twoinstr" -> Rep(SimpleLine(1), n - 1) \o <<Line("stmt", "IsAssignation", Tabs(1) \o <<V1, L(" = ", 3), N1, L("; ", 2), V3, L(" = ", 3), N1, L(";", 1)>>)>>
+    [] shape = "ctrlstmt" -> Rep(SimpleLine(1), n - 1) \o <<Line("ctrl", "IsControlStatement", Tabs(1) \o <<L("if (", 4), V1, L(") ", 2), V3, L(" = ", 3), N1, L(";", 1)>>)>>
+    [] shape = "split" -> <<Line("stmt2", "IsFunctionCall", Tabs(1) \o <<F4, L("(", 1), V1, L(",", 1), NLc>> \o Tabs(2) \o <<N1, L(");", 2)>>)>>
+                          \o Rep(SimpleLine(1), n - 2)
+    [] shape = "comment3" -> <<SimpleLine(1), Line("comment", "IsComment3", <<L("/*", 2)>>)>> \o Rep(SimpleLine(1), n - 4)
 LinesProg(c) ==
   LET before == IF c.fidx >= 2 THEN SmallFunc(2) \o <<Empty>> ELSE <<>>
       before2 == IF c.fidx >= 3 THEN SmallFunc(3) \o <<Empty>> ELSE <<>>
@@ -150,7 +170,7 @@ LSpec == LInit /\ [][LNext]_<<nvars, lcase>>
 CountK(k) == Cardinality({i \in DOMAIN prog : prog[i].k = k})
 MeasureOK ==
   CASE lcase.lim = "width" -> (~(lcase.kind \in {"mc_first", "mc_interior", "mc_last"}) => LineWidth(Build(lcase).target) = lcase.n)
-    [] lcase.lim = "lines" -> Len(BodyOf(lcase.shape, lcase.n)) = lcase.n
+    [] lcase.lim = "lines" -> PhysSum(BodyOf(lcase.shape, lcase.n), 1) = lcase.n
     [] lcase.lim = "funcs" -> CountK("funchead") = lcase.n
     [] lcase.lim = "args" -> Cardinality({j \in DOMAIN Build(lcase).target.items : Build(lcase).target.items[j].s = "p"}) = lcase.n
     [] lcase.lim = "vars" -> CountK("decl") = lcase.n
